@@ -1,18 +1,29 @@
 """C01 — fixture resolution follows pytest's shadowing order."""
-import collections, json, os, random
+import glob, json, os
 
 import core, runner
 import wsgen
-from common_ws import usage_positions, evaluate
+from common_ws import usage_positions
 
 PID = "C01"
+MODULE = "Check.C01"
+VERDICT = "verdict_C01 [] []"
+CLASS_BITS = {16: "K_import_provenance"}
+NCASES = (48, 1600)
+shrinkable = True
+RULE = ("generator W (gen/wsgen.py): virtual workspaces, depth 0-3, per level and name a conftest that is "
+        "absent/defines/overrides/star-imports/explicitly imports/pytest_plugins-declares, helper chains and cycles, "
+        "invisible sibling/unimported modules, plugin and site-packages providers; go-to-definition asked at every "
+        "column of every usage token and one column either side, plus direct resolution per (test module, name) and "
+        "the imported-fixture set per conftest and a full dump of the index maps; a case is non-trivial when at least "
+        "one conftest provides a name; distinct = distinct multiset of feature tags")
+ASSUMPTIONS = ["virtual workspaces only (no file exists on disk)", "ASCII identifiers and lines",
+               "rustpython and CPython agree on node ranges for the generated grammar (checked by the dump comparison)"]
 
 
-def make_case(cid, rnd, stdlib):
-    ws = wsgen.gen_workspace(rnd, root="/vw%d" % (cid % 7))
-    steps = wsgen.build_steps(ws)
+def add_queries(ws, steps, stdlib):
     steps.append({"q": "dump"})
-    nq = 0
+    nq = 1
     for p in sorted(ws["files"]):
         for (line, s, e, name) in usage_positions(ws["files"][p], stdlib):
             for col in range(max(0, s - 1), e + 1):
@@ -20,77 +31,40 @@ def make_case(cid, rnd, stdlib):
                 nq += 1
         if p.endswith("conftest.py"):
             steps.append({"q": "imported", "path": p})
+            nq += 1
         if "/test_" in p:
             for n in ws["names"] + ["unknown_fixture"]:
                 steps.append({"q": "closest", "path": p, "name": n})
                 nq += 1
+    return nq
+
+
+def make_case(cid, rnd, stdlib):
+    ws = wsgen.gen_workspace(rnd, root="/vw%d" % (cid % 7))
+    steps = wsgen.build_steps(ws)
+    nq = add_queries(ws, steps, stdlib)
     return {"id": cid, "steps": steps, "tags": ws["tags"], "queries": nq}
 
 
+def corpus(stdlib):
+    out = []
+    for p in sorted(glob.glob(os.path.join(core.VERIF, "gen", "corpus", PID, "*.json"))):
+        ws = json.load(open(p))
+        ws.setdefault("plugins", [])
+        ws.setdefault("order", list(ws["files"]))
+        steps = wsgen.build_steps(ws)
+        nq = add_queries(ws, steps, stdlib)
+        out.append({"id": 0, "steps": steps, "tags": ["corpus:" + os.path.basename(p)], "queries": nq})
+    return out
+
+
+def nontrivial(c):
+    if any(t.startswith("conftest:") and t not in ("conftest:absent", "conftest:none") for t in c["tags"]) \
+            or any(t.startswith("corpus:") for t in c["tags"]):
+        return tuple(sorted(c["tags"]))
+    return None
+
+
 def run(r):
-    quick = r.tier == "quick"
-    proof_ok = runner.proof_stage(r)
-    stdlib = set(core.tables()["stdlib_modules"])
-    h1, _ = core.build_harness()
-    rnd = random.Random(r.seed)
-    ncases = int(os.environ.get("VERIF_CASES", 48 if quick else 1600))
-    cases = [make_case(i, rnd, stdlib) for i in range(ncases)]
-    meta = evaluate(r, PID, "Check.C01", "verdict_C01 [] []", cases, stdlib, h1)
-    return finish(r, cases, meta, proof_ok)
-
-
-def finish(r, cases, meta, proof_ok):
-    tagc = collections.Counter()
-    nq = corr_bad = 0
-    known_hits = collections.Counter()
-    prop_fail = []
-    corr_fail = []
-    nontrivial = set()
-    for c in cases:
-        m = meta[c["id"]]
-        for t in c["tags"]:
-            tagc[t] += 1
-        nq += c["queries"]
-        if m.get("hang"):
-            prop_fail.append((c, [], "hang"))
-            continue
-        corr, prop, known, model_bad = runner.classify(m["codes"])
-        if corr:
-            corr_fail.append((c, corr))
-        if prop:
-            prop_fail.append((c, prop, "spec"))
-        for s in known:
-            known_hits["C01 known class"] += 1
-        key = tuple(sorted(set(c["tags"])))
-        if any(t.startswith("conftest:") and t not in ("conftest:absent", "conftest:none") for t in c["tags"]):
-            nontrivial.add(key)
-    for (c, steps, why) in prop_fail[:5]:
-        r.violation({"property": PID, "why": why, "case": c, "failing_steps": steps,
-                     "obs": [meta[c["id"]]["obs"][s] for s in steps] if not meta[c["id"]].get("hang") else None,
-                     "seed": r.seed}, "prop_%d" % c["id"])
-    if corr_fail and not prop_fail:
-        c, steps = corr_fail[0]
-        r.violation({"property": PID, "broken": "corr:C01 (model and implementation disagree)", "case": c,
-                     "disagreeing_steps": steps, "obs": [meta[c["id"]]["obs"][s] for s in steps], "seed": r.seed},
-                    "corr_%d" % c["id"], no_input=True)
-    if not proof_ok and not r.violations:
-        r.violation({"property": PID, "broken": "thm:PLS.Properties.C01", "detail": r.proof, "seed": r.seed},
-                    "proof", no_input=True)
-    if known_hits:
-        kf = core.load_known_findings()
-        for f in kf["findings"]:
-            if f["property"] == PID:
-                r.known_lines.append("KNOWN-FINDING: property=%s %s" % (PID, f["what"]))
-    r.coverage = {
-        "obligations": r.proof.get("statements", 0), "discharged": r.proof.get("qed", 0),
-        "checker_cmd": "make -C coq theories/Properties/C01.vo (coqc 8.16.1) + Print Assumptions",
-        "trusted_base": runner.trusted_base(),
-        "evaluations": nq, "distinct_nontrivial": len(nontrivial),
-        "rule": "generator W (gen/wsgen.py): virtual workspaces, depth 0-3, per level and name a conftest that is absent/defines/overrides/star-imports/explicitly imports/pytest_plugins-declares, helper chains and cycles, invisible sibling/unimported modules, plugin and site-packages providers; go-to-definition asked at every column of every usage token and one column either side; a case is non-trivial when at least one conftest provides a name; distinct = distinct multiset of feature tags",
-        "samples": [{"id": c["id"], "tags": c["tags"], "steps": c["steps"][:3]} for c in cases[:2]],
-        "cases": len(cases), "known_class_hits": sum(known_hits.values()),
-        "correspondence_failures": len(corr_fail), "input_distribution": dict(tagc),
-        "proof": {k: v for k, v in r.proof.items() if k != "cone"},
-    }
-    r.assumptions = ["virtual workspaces only (no file exists on disk); ASCII identifiers; rustpython and CPython agree on node ranges"]
-    return r.finish()
+    import sys
+    return runner.drive_ws(r, sys.modules[__name__])
